@@ -390,6 +390,20 @@ class Builder:
         return "\n".join(lines) + "\n"
 
 
+def _flex(lit):
+    """a literal C fragment as a regex that does not care about spacing (the source is GNU style, but a reformatting is harmless)"""
+    import re
+    parts = re.findall(r"[A-Za-z_0-9]+|\s+|.", lit)
+    return "".join(r"\s*" if p.isspace() else (r"\b" + re.escape(p) + r"\b" if re.match(r"\w", p) else r"\s*" + re.escape(p) + r"\s*") for p in parts)
+
+
+def pos(text, lit, start=0):
+    """like text.find(lit, start), insensitive to spacing"""
+    import re
+    m = re.compile(_flex(lit)).search(text, start)
+    return m.start() if m else -1
+
+
 def hexs(s):
     return s.encode().hex()
 
@@ -631,7 +645,13 @@ class C05(Prop):
                     if depth == 0:
                         break
                 j += 1
-            return re.sub(r"/\*.*?\*/", "", src[i:j + 1], flags=re.S)
+            text = re.sub(r"/\*.*?\*/", "", src[i:j + 1], flags=re.S)
+            # the names of the context parameter / local are the author's choice: normalise them to `econ`
+            header = src[m.start():i]
+            for nm in re.findall(r"error_context_t\s*\*\s*(\w+)", header) + re.findall(r"\berror_context_t\s+(\w+)\s*;", text):
+                if nm != "econ":
+                    text = re.sub(r"\b%s\b" % re.escape(nm), "econ", text)
+            return text
 
         def need(site, cond, what):
             if not cond:
@@ -652,10 +672,10 @@ class C05(Prop):
         out.append("/-- save_context: `econ->save_sp = %s;` -/\ndef saveContextSaveSp (sp : Nat) : Nat := %s" % (m_sp.group(1), expr(m_sp.group(1))))
         out.append("/-- save_context: `econ->save_csp = %s;` -/\ndef saveContextSaveCsp (csp : Nat) : Nat := %s" % (m_csp.group(1), expr(m_csp.group(1))))
         test = re.search(r"if\s*\(csp\s*==\s*&control_stack\[CONFIG_INT\s*\(__MAX_CALL_DEPTH__\)\s*-\s*(\d+)\]\)", sc)
-        link = sc.find("current_error_context = econ")
+        link = pos(sc, "current_error_context = econ")
         need("save_context", test and link >= 0, "depth test / linking")
         out.append("/-- save_context: the frame index of the depth test is MaxCallDepth - this -/\ndef saveContextDepthOffset : Nat := %s" % test.group(1))
-        ret0 = sc.find("return 0", test.start())
+        ret0 = pos(sc, "return 0", test.start())
         out.append("/-- save_context: the refusal (`return 0`) comes before the context is linked into the chain -/\n"
                    "def saveContextRefusesBeforeLinking : Bool := %s" % ("true" if 0 <= ret0 < link else "false"))
         out.append("/-- save_context stores the two guards (save_object_limits) and command_giver -/\ndef saveContextSavesGuards : Bool := %s"
@@ -677,8 +697,8 @@ class C05(Prop):
         out.append("/-- pop_context relinks the chain and clears the error state -/\ndef popContextRelinksAndClears : Bool := %s"
                    % ("true" if re.search(r"current_error_context\s*=\s*econ->save_context", pc) and "clear_error_state" in pc else "false"))
         eh = body("src/error_context.c", "error_handler")
-        first_if = eh.find("if (current_error_context")
-        r1, r2 = eh.find("reset_destruct_object_limits"), eh.find("reset_load_object_limits")
+        first_if = pos(eh, "if (current_error_context")
+        r1, r2 = pos(eh, "reset_destruct_object_limits"), pos(eh, "reset_load_object_limits")
         need("error_handler", first_if >= 0, "catch branch")
         out.append("/-- error_handler: both guard resets precede the catch branch -/\ndef errorHandlerResetsGuardsFirst : Bool := %s"
                    % ("true" if 0 <= r1 < first_if and 0 <= r2 < first_if else "false"))
@@ -687,20 +707,35 @@ class C05(Prop):
             m = re.search(r"econ\.save_sp\s*=\s*([^;]+);", b)
             rhs = m.group(1) if m else "sp"
             out.append("/-- %s: recovery point `econ.save_sp = %s` -/\ndef %sSaveSp (sp numArg : Nat) : Nat := %s" % (fn, rhs, lean, expr(rhs)))
-            after = b[b.find("restore_context"):] if "restore_context" in b else ""
+            after = b[pos(b, "restore_context"):] if "restore_context" in b else ""
             out.append("/-- %s: no `pop_n_elems (num_arg)` after restore_context -/\ndef %sPopsArgsAfterRestore : Bool := %s"
                        % (fn, lean, "true" if re.search(r"pop_n_elems\s*\(num_arg\)", after) else "false"))
         dc = body("src/frame.c", "do_catch")
         out.append("/-- do_catch: the limit bit is set again after pop_context, before the re-raise -/\ndef catchKeepsLimitBit : Bool := %s"
                    % ("true" if re.search(r"pop_context\s*\(&econ\);\s*set_error_state\s*\(ES_STACK_FULL\)", dc) else "false"))
         out.append("/-- do_catch: save_context, then push_control_stack (FRAME_CATCH), then setjmp -/\ndef catchPushesFrameRightAfterSave : Bool := %s"
-                   % ("true" if 0 <= dc.find("save_context") < dc.find("push_control_stack (FRAME_CATCH)") < dc.find("setjmp") else "false"))
+                   % ("true" if 0 <= pos(dc, "save_context") < pos(dc, "push_control_stack (FRAME_CATCH)") < pos(dc, "setjmp") else "false"))
         pcs = body("src/frame.c", "push_control_stack")
         t2 = re.search(r"CONFIG_INT\s*\(__MAX_CALL_DEPTH__\)\s*-\s*(\d+)", pcs)
         need("push_control_stack", t2, "depth test")
         out.append("/-- push_control_stack: the frame index of the depth test is MaxCallDepth - this -/\ndef pushDepthOffset : Nat := %s" % t2.group(1))
         out += self.gen_globals(bdir, body, need)
-        return "\n".join(out) + "\n"
+        text = "\n".join(out) + "\n"
+        # name the site of every regenerated statement shape that is not what the model mirrors: the obligation in Tie.lean
+        # will fail, and the report should say WHICH C statement moved (a harmless rewrite and a defect look the same here;
+        # the search stage that follows decides)
+        expected_false = ("safeApplyPopsArgsAfterRestore", "safeFpPopsArgsAfterRestore")
+        self.shape_notes = []
+        for mm in re.finditer(r"/-- ((?:(?!/--).)*?) -/\ndef (\w+) : Bool := (true|false)", text, re.S):
+            doc, name, val = mm.group(1), mm.group(2), mm.group(3)
+            if (val == "false") != (name in expected_false):
+                self.shape_notes.append("%s = %s: %s" % (name, val, " ".join(doc.split())))
+        for mm in re.finditer(r"/-- ((?:(?!/--).)*?) -/\ndef (\w+) : List String := \[(.+)\]", text):
+            if mm.group(2) in ("cgStackUnsafeCalls", "errorHandlersThatCallBack"):
+                self.shape_notes.append("%s = [%s]: %s" % (mm.group(2), mm.group(3), " ".join(mm.group(1).split())))
+        for n in self.shape_notes:
+            E.log("C05 translator: source no longer has the shape the model mirrors - " + n)
+        return text
 
     # ---- translator: which global variables does an error unwinding have to put back? -----------------------------
     CORE_OBJECTS = ["interpret", "frame", "stack", "error_context", "apply", "simulate"]
@@ -801,7 +836,7 @@ class C05(Prop):
                         continue
                     t = re.sub(r"/\*.*?\*/", "", open(os.path.join(dp, f), errors="replace").read(), flags=re.S)
                     for mm in re.finditer(r"\bsave_command_giver\s*\([^;{]*\)\s*;", t):
-                        end = t.find("restore_command_giver", mm.end())
+                        end = pos(t, "restore_command_giver", mm.end())
                         seg = t[mm.end():end if end >= 0 else mm.end() + 2000]
                         users += 1
                         for cb in re.finditer(self.CALLBACKS, seg):
@@ -813,9 +848,10 @@ class C05(Prop):
                    "def cgStackUnsafeCalls : List String := %s" % lst(sorted(set(unsafe))))
         # (5) error_handler: the heart beat is switched off on the uncaught path only, after the mudlib handler
         eh = body("src/error_context.c", "error_handler")
-        hb = eh.find("if (current_heart_beat)")
-        catch_end = eh.find("if (in_error)")
-        last_handler = eh.rfind("mudlib_error_handler (err, 0)")
+        hb = pos(eh, "if (current_heart_beat)")
+        catch_end = pos(eh, "if (in_error)")
+        mh0 = list(re.finditer(r"mudlib_error_handler\s*\(\w+,\s*0\)", eh))
+        last_handler = mh0[-1].start() if mh0 else -1
         out.append("/-- error_handler: `if (current_heart_beat) set_heart_beat (…, 0)` comes after the catch branch, after the in_error "
                    "branch and after the uncaught mudlib handler call, and clears current_heart_beat -/\n"
                    "def errorHandlerHeartBeatOffLast : Bool := %s"
@@ -823,10 +859,11 @@ class C05(Prop):
                       "set_heart_beat (current_heart_beat, 0)" in eh[hb:] else "false"))
         # (5b) error_handler, caught branch: catch_value (a global that every catch() executed by the master's handler
         #      overwrites) is assigned AFTER mudlib_error_handler (err, 1) returned, directly before the longjmp
-        i_h1 = eh.find("mudlib_error_handler (err, 1)")
-        i_cv = eh.find("catch_value.u.string = string_copy")
-        i_free = eh.find("free_svalue (&catch_value")
-        i_jmp = eh.find("longjmp (current_error_context->context, 1)")
+        mh1 = re.search(r"mudlib_error_handler\s*\(\w+,\s*1\)", eh)
+        i_h1 = mh1.start() if mh1 else -1
+        i_cv = pos(eh, "catch_value.u.string = string_copy")
+        i_free = pos(eh, "free_svalue (&catch_value")
+        i_jmp = pos(eh, "longjmp (current_error_context->context, 1)")
         out.append("/-- error_handler (caught error): the master's handler is applied first, then catch_value is freed and set to the "
                    "message, then the longjmp; nothing that can run LPC sits between the assignment and the longjmp -/\n"
                    "def errorHandlerSetsCatchValueAfterHandler : Bool := %s"
@@ -843,28 +880,28 @@ class C05(Prop):
         # (5d) … and the limit bits (ES_STACK_FULL / ES_MAX_EVAL_COST) of the error the handler runs for are recorded at both
         #      entries and re-instated in the same two guarded places, i.e. only when the handler is abandoned
         reinst = [c for c in guarded if re.match(r"in_mudlib_error_handler\s*=\s*0\s*;\s*set_error_state\s*\(handler_limit_state\)\s*;\s*\}", eh[c:])]
-        recorded = len(re.findall(r"handler_limit_state\s*=\s*limit_state\s*;\s*in_mudlib_error_handler\s*=\s*1\s*;", eh))
-        after = len(re.findall(r"mudlib_error_handler\s*\(err,\s*[01]\)\s*;\s*(?:in_error\s*=\s*1\s*;\s*)?in_mudlib_error_handler\s*=\s*0\s*;\s*set_error_state\s*\(limit_state\)", eh))
+        recorded = len(re.findall(r"handler_limit_state\s*=\s*\w+\s*;\s*in_mudlib_error_handler\s*=\s*1\s*;", eh))
+        after = len(re.findall(r"mudlib_error_handler\s*\(\w+,\s*[01]\)\s*;\s*(?:in_error\s*=\s*1\s*;\s*)?in_mudlib_error_handler\s*=\s*0\s*;\s*set_error_state\s*\(\w+\)", eh))
         out.append("/-- error_handler: the limit bits are recorded before both handler applies, set again after a handler that returned, and "
                    "re-instated for an error raised inside the handler only where the flag is cleared (handler abandoned) -/\n"
                    "def errorHandlerKeepsLimitState : Bool := %s" % ("true" if len(reinst) == 2 and recorded == 2 and after == 2 else "false"))
         # (6) backend(): one context for the whole loop; recovery = restore_context only; pop_context after the loop
         be = body("src/backend.c", "backend")
-        i_save, i_set, i_loop, i_pop = be.find("save_context (&econ)"), be.find("if (setjmp (econ.context))"), be.find("while (1)"), be.find("pop_context (&econ)")
-        rec = re.search(r"if\s*\(setjmp\s*\(econ\.context\)\)\s*restore_context\s*\(&econ\)\s*;", be)
+        i_save, i_set, i_loop, i_pop = pos(be, "save_context (&econ)"), pos(be, "if (setjmp (econ.context))"), pos(be, "while (1)"), pos(be, "pop_context (&econ)")
+        rec = re.search(r"if\s*\(setjmp\s*\(econ\.context\)\)\s*\{?\s*restore_context\s*\(&econ\)\s*;", be)
         out.append("/-- backend(): clear_state; save_context; `if (setjmp) restore_context;` before the loop; pop_context after it; "
                    "current_interactive cleared at the top of the loop -/\ndef backendRecoveryShape : Bool := %s"
-                   % ("true" if rec and 0 <= be.find("clear_state ()") < i_save < i_set < i_loop < i_pop and
+                   % ("true" if rec and 0 <= pos(be, "clear_state ()") < i_save < i_set < i_loop < i_pop and
                       re.search(r"while\s*\(1\)\s*\{\s*current_interactive\s*=\s*0\s*;", be) else "false"))
         sw = body("src/backend.c", "look_for_objects_to_swap")
-        rec2 = re.search(r"save_context\s*\(&econ\)\s*;\s*if\s*\(setjmp\s*\(econ\.context\)\)\s*restore_context\s*\(&econ\)\s*;", sw)
+        rec2 = re.search(r"save_context\s*\(&econ\)\s*;\s*if\s*\(setjmp\s*\(econ\.context\)\)\s*\{?\s*restore_context\s*\(&econ\)\s*;", sw)
         out.append("/-- look_for_objects_to_swap(): its own context around the whole sweep (reset / clean_up) -/\ndef sweepRecoveryShape : Bool := %s"
-                   % ("true" if rec2 and sw.find("pop_context (&econ)") > sw.find("APPLY_CLEAN_UP") > 0 else "false"))
+                   % ("true" if rec2 and pos(sw, "pop_context (&econ)") > pos(sw, "APPLY_CLEAN_UP") > 0 else "false"))
         chb = body("src/backend.c", "call_heart_beat")
-        i1, i2, i3 = chb.find("current_heart_beat = ob"), chb.find("command_giver = ob"), chb.find("call_function (ob->prog")
+        i1, i2, i3 = pos(chb, "current_heart_beat = ob"), pos(chb, "command_giver = ob"), pos(chb, "call_function (ob->prog")
         out.append("/-- call_heart_beat(): current_heart_beat and command_giver are set before call_function pushes the frame; cleared after -/\n"
                    "def heartBeatSetsRegistersBeforeFrame : Bool := %s"
-                   % ("true" if 0 <= i1 < i2 < i3 < chb.find("command_giver = 0", i3) < chb.find("current_heart_beat = 0", i3) else "false"))
+                   % ("true" if 0 <= i1 < i2 < i3 < pos(chb, "command_giver = 0", i3) < pos(chb, "current_heart_beat = 0", i3) else "false"))
         # (7) inventory: C functions that call back into LPC (a callback can longjmp past them) and whether they leave a
         #     T_ERROR_HANDLER slot on the value stack that releases / resets what their C locals and statics hold
         inv = []
@@ -934,11 +971,11 @@ class C05(Prop):
         # (9) destruct_object of a vital object: slot pushed and both names recorded BEFORE the name is blanked; the handler
         #     restores both names; the two by-hand back-outs restore the name and drop the slot before raising
         dob = body("src/simulate.c", "destruct_object")
-        i_slot = dob.find("sp->u.error_handler = fix_object_names")
-        i_m = dob.find("saved_master_name = master_ob")
-        i_s = dob.find("saved_simul_name = simul_efun_ob")
-        i_blank = dob.find('ob->name = ""')
-        i_load = dob.find("new_ob = load_object (tmp")
+        i_slot = pos(dob, "sp->u.error_handler = fix_object_names")
+        i_m = pos(dob, "saved_master_name = master_ob")
+        i_s = pos(dob, "saved_simul_name = simul_efun_ob")
+        i_blank = pos(dob, 'ob->name = ""')
+        i_load = pos(dob, "new_ob = load_object (tmp")
         out.append("/-- destruct_object: the fix_object_names slot is pushed and both names are recorded before `ob->name = \"\"`, which comes "
                    "before the reload -/\ndef destructRecordsNamesBeforeBlanking : Bool := %s"
                    % ("true" if 0 <= i_slot < i_blank and 0 <= i_m < i_blank and 0 <= i_s < i_blank < i_load else "false"))
